@@ -211,6 +211,11 @@ func outcomeOf(r fw.Row) string {
 // compareTable evaluates fn's decision table on every assignment and compares with oracle.
 // oracle returns the expected outcome, or "" to skip an (infeasible) assignment.
 // rowValue (optional) post-processes the row into the compared outcome.
+// compareTablePrep (optional, set by a caller around one compareTable call): rewrites the
+// extracted table before it is evaluated (e.g. rows that return the result of a library
+// three-way comparison are split into their three outcomes).
+var compareTablePrep func(t *fw.Table)
+
 func compareTable(c *fw.Ctx, rule, what string, fn *ssa.Function, resIdx int, vars []tvar, ip *interp, oracle func(a asg) string, rowValue func(r fw.Row) string) {
 	if fn == nil {
 		return
@@ -219,6 +224,9 @@ func compareTable(c *fw.Ctx, rule, what string, fn *ssa.Function, resIdx int, va
 	if err != nil {
 		c.Undecided(rule, what, err.Error())
 		return
+	}
+	if compareTablePrep != nil {
+		compareTablePrep(t)
 	}
 	if rowValue == nil {
 		rowValue = outcomeOf
@@ -377,6 +385,37 @@ func compareTable(c *fw.Ctx, rule, what string, fn *ssa.Function, resIdx int, va
 	for _, k := range fw.SortedKeys(mismatches) {
 		c.Fail(rule, k, c.P.Pos(fn.Pos()), mismatches[k])
 	}
+}
+
+// splitThreeWay: a row that returns cmp.Compare(x, y) (or strings.Compare is left alone: it is
+// the final tie-break the rules name) stands for three rows: x < y gives -1, x == y gives 0,
+// x > y gives 1.
+func splitThreeWay(t *fw.Table) {
+	var out []fw.Row
+	for _, r := range t.Rows {
+		call, ok := r.Call.(*ssa.Call)
+		if !ok || r.Outcome != "call:cmp.Compare" || len(call.Call.Args) != 2 {
+			out = append(out, r)
+			continue
+		}
+		x, y := fw.Sig(call.Call.Args[0]), fw.Sig(call.Call.Args[1])
+		eqX, eqY := x, y
+		if eqX > eqY {
+			eqX, eqY = eqY, eqX
+		}
+		for _, alt := range []struct {
+			atom, outcome string
+		}{{"(" + x + " < " + y + ")", "value:-1"}, {"(" + eqX + " == " + eqY + ")", "value:0"}, {"(" + x + " > " + y + ")", "value:1"}} {
+			nr := r
+			nr.Call = nil
+			nr.Outcome = alt.outcome
+			nr.Cond = fw.AndLit(r.Cond, fw.Lit{Atom: alt.atom, Pos: true})
+			if len(nr.Cond) > 0 {
+				out = append(out, nr)
+			}
+		}
+	}
+	t.Rows = out
 }
 
 func dedupStr(in []string) []string {
